@@ -112,6 +112,23 @@ def run_case(case, w):
             tot = {f: sum(exp[d][f] for d in whole) for f in DISK_FIELDS}
             if got[0] != "ok" or {f: getattr(got[1], f) for f in DISK_FIELDS} != tot:
                 bad.append(("disk:total", "devices %r whole %r: got %r expected %r" % (devs, whole, freeze(got), tot)))
+    elif k == "disk-seq":
+        # call 1: `name` is not in /sys/block (partition / not yet registered); call 2: it is a whole disk (and vice versa)
+        name, first_whole = case[1], case[2]
+        for step, whole in enumerate((first_whole, not first_whole)):
+            for d in list(w.children.get("/sys/block", ())):
+                w.remove("/sys/block/" + d)
+            w.mkdir("/sys/block/sda")
+            if whole:
+                w.mkdir("/sys/block/" + name)
+            vals_a = [PRIMES[j] * 10 + j for j in range(11)]
+            vals_b = [PRIMES[j] * 20 + j for j in range(11)]
+            w.set_file("/proc/diskstats", disk_line(0, "sda", vals_a, 20) + disk_line(1, name, vals_b, 20))
+            ea, eb = disk_ref(0, vals_a, 20), disk_ref(1, vals_b, 20)
+            tot = {f: ea[f] + (eb[f] if whole else 0) for f in DISK_FIELDS}
+            got = outcome(psutil.disk_io_counters, perdisk=False, nowrap=False)
+            if got[0] != "ok" or {f: getattr(got[1], f) for f in DISK_FIELDS} != tot:
+                bad.append(("disk:total:after-sysfs-change", "step %d (%s whole=%s): got %r expected %r" % (step, name, whole, freeze(got), tot)))
     elif k == "usage":
         blocks, bfree, bavail, frsize, bsize = case[1:]
         w.statvfs_result = types.SimpleNamespace(f_blocks=blocks, f_bfree=bfree, f_bavail=bavail, f_frsize=frsize, f_bsize=bsize,
@@ -160,6 +177,8 @@ def build_cases(thorough):
             if col in (2, 6) and v * 512 >= 2 ** 80:
                 continue
             cases.append(("disk", ["sda", "sda1"], 20, [col, v]))
+    for i, nm in enumerate(["sdq", "nvme7n1", "md77", "loop42", "dm-9"]):
+        cases.append(("disk-seq", nm, i % 2 == 0))
     sv = [0, 1, 1000, 2 ** 31, 2 ** 40]
     for blocks, bfree, bavail in itertools.product(sv, repeat=3):
         if bfree > blocks:
